@@ -52,6 +52,10 @@ Fixpoint cap_get (g : nat) (c : caps) : option (nat * nat) :=
 
 Definition mres := list (state * caps).
 
+(* `$` without MULTILINE: at the end, or before a final line feed *)
+Definition at_end_b (l : list cp) : bool :=
+  match l with [] => true | [c] => N.eqb c 10 | _ => false end.
+
 (* repetition: iterate `body` from every end, fuel bounds the number of iterations.
    An iteration that does not advance is dropped (CPython's empty-iteration guard;
    the translator additionally refuses nullable bodies, see T1). *)
@@ -95,11 +99,7 @@ Fixpoint ends (r : re) (st : state) (c : caps) : mres :=
                      | [] => if neg then [(st, c)] else []
                      end
   | BehindStart | AtStart => match pos st with O => [(st, c)] | S _ => [] end
-  | AtEnd => match after st with
-             | [] => [(st, c)]
-             | [10%N] => [(st, c)]
-             | _ => []
-             end
+  | AtEnd => if at_end_b (after st) then [(st, c)] else []
   | AtEndStrict => match after st with [] => [(st, c)] | _ => [] end
   | Grp g r' => map (fun sc => (fst sc, (g, (pos st, pos (fst sc))) :: snd sc)) (ends r' st c)
   end.
@@ -188,3 +188,6 @@ Fixpoint rep_bodies_ok (r : re) : bool :=
   | Look _ r' | Grp _ r' => rep_bodies_ok r'
   | _ => true
   end.
+
+(* the size of the backtracking search from position i (number of ends, with multiplicity) *)
+Definition ends_count (r : re) (s : str) (i : nat) : nat := length (ends r (st_at s i) []).
